@@ -39,6 +39,10 @@ class MemoryManager:
         # Arrays that need to be returned at the end of the subroutine.
         self._arrays_to_return: List[Array] = []
 
+        # Addresses of arrays allocated in an earlier subroutine that are written
+        # to in the current one (and hence need to be returned again).
+        self._written_array_addresses: Set[int] = set()
+
     def inactivate_qubits(self) -> None:
         """Mark all registers as inactive (i.e. not in use)."""
         while len(self._active_qubits) > 0:
@@ -154,8 +158,17 @@ class MemoryManager:
         """Clear list of arrays that are returned at the end of the subroutine."""
         self._arrays_to_return = []
 
+    def add_written_array_address(self, address: int) -> None:
+        """Let an existing array be returned (again) at the end of the subroutine."""
+        self._written_array_addresses.add(address)
+
+    def get_written_array_addresses(self) -> Set[int]:
+        """Get the addresses of all arrays written to in the current subroutine."""
+        return self._written_array_addresses
+
     def reset(self) -> None:
         """Reset the state of the MemoryManager."""
+        self._written_array_addresses = set()
         self.reset_arrays_to_return()
         self.reset_registers_to_return()
         self.reset_used_meas_registers()
